@@ -127,6 +127,23 @@ def plan(tier):
                                  note='source value scaled by the exact power and truncated toward zero'),
                         via=sname2, shim=sname2, shim_types=[f], prop=PROP, timeout=300,
                         oracle=(lambda es, S: lambda x: None if (x != x or not (S.min - 1 < x * 2.0 ** -es < S.max + 1)) else ('value', int(x * 2.0 ** -es)))(es, S)))
+    # scaled_integer <-> built-in integer (the integer counts as exponent 0): conversion operator and converting constructor, whole function inlined
+    for (s_, es, d) in [('i32', -8, 'i32'), ('i16', -4, 'i8'), ('i16', 4, 'i64'), ('u16', -3, 'i32')] + ([('i64', -20, 'i16'), ('i8', 2, 'u32')] if thorough else []):
+        S, D = T(s_), T(d)
+        A = 'cnl::scaled_integer<%s, cnl::power<%d>>' % (cxx(s_), es)
+        tag = '%s_%s_to_%s' % (s_, str(es).replace('-', 'm'), d)
+        sname = 'vp_s2b_' + tag
+        src.append(shim(d, sname, [(s_, 'a')], 'return static_cast<%s>(cnl::_impl::from_rep<%s>(a));' % (cxx(d), A)))
+        jobs.append(Job('%s.S2B.%s' % (PROP, tag), kname, r'^cnl::_impl::wrapper<%s, cnl::power<%d, 2> >::operator %s<%s>\(\) const$' % (dem(s_), es, dem(d), dem(d)),
+                        i2i_contract(S, es, D, 0, 0), via=sname, shim=sname, shim_types=[s_], oracle=py_i2i(S, es, D, 0), prop=PROP, timeout=300, layer=2, skip_this=False))
+    for (s_, d, ed) in [('i32', 'i32', -8), ('i8', 'i16', -4), ('i64', 'i16', 4), ('u8', 'u16', -3)] + ([('i16', 'i64', -20), ('u32', 'i8', 2)] if thorough else []):
+        S, D = T(s_), T(d)
+        B = 'cnl::scaled_integer<%s, cnl::power<%d>>' % (cxx(d), ed)
+        tag = '%s_to_%s_%s' % (s_, d, str(ed).replace('-', 'm'))
+        sname = 'vp_b2s_' + tag
+        src.append(shim(d, sname, [(s_, 'a')], 'return cnl::_impl::to_rep(%s{a});' % B))
+        jobs.append(Job('%s.B2S.%s' % (PROP, tag), kname, r'^cnl::_impl::wrapper<%s, cnl::power<%d, 2> >::wrapper<%s>\(%s const&\)$' % (dem(d), ed, dem(s_), dem(s_)),
+                        i2i_contract(S, 0, D, ed, 1), via=sname, shim=sname, shim_types=[s_], oracle=py_i2i(S, 0, D, ed), prop=PROP, timeout=300, layer=2, skip_this=True))
     # from_rep / to_rep inverses
     for (s, es) in [('i32', -16), ('u8', 5)]:
         A = 'cnl::scaled_integer<%s, cnl::power<%d>>' % (cxx(s), es)
